@@ -90,6 +90,7 @@ type Monitor struct {
 	byzEverSent                                                        bool
 	ExtraRoundsMax                                                     int64
 	lastChangeEv, alarmsSinceChange                                    int
+	lastChangeAt                                                       time.Time
 	Checks                                                             map[string]int
 	RejectClasses                                                      map[string]int
 	DecideRounds                                                       map[uint64]int
@@ -261,6 +262,13 @@ func (m *Monitor) checkStagnation() {
 	if w.Events-m.lastChangeEv < 4000 || m.alarmsSinceChange < 60 {
 		return
 	}
+	// a step legitimately lasts up to its timeout 2*delta*backoff^round (rebroadcast alarms keep
+	// firing meanwhile): demand three times the timeout of the round after the highest one reached
+	o := w.Sc.Opts
+	longest := 2 * float64(o.Delta) * math.Pow(o.BackOff, float64(m.MaxRound+1)) * math.Max(1, o.QualityMulti)
+	if float64(w.now.Sub(m.lastChangeAt)) < 3*longest {
+		return
+	}
 	for _, h := range w.Part {
 		if h == nil || h.m.Kind != Honest {
 			continue
@@ -303,7 +311,7 @@ func (m *Monitor) onProgress(h *host) {
 		}
 	}
 	if !ps.hasLast || ps.last != cur {
-		m.lastChangeEv, m.alarmsSinceChange = m.w.Events, 0
+		m.lastChangeEv, m.alarmsSinceChange, m.lastChangeAt = m.w.Events, 0, m.w.now
 	}
 	ps.last, ps.hasLast = cur, true
 	m.Checks["c07c-progress"]++
